@@ -1,6 +1,7 @@
 """C17 -- time-shift invariance, equivalent schedule forms, error branches, recovery interpolator."""
 from __future__ import annotations
 
+import math
 import warnings
 from concurrent.futures import ProcessPoolExecutor
 
@@ -18,11 +19,21 @@ def _pair(args):
     cfg, tid = args
     env.import_bluebonnet()
     rng = np.random.default_rng(cfg["seed"])
-    base = sdrv.make_grid(cfg["grid"], cfg["nt"], cfg["tend"], rng)
-    shift = cfg["shift_by"]
-    shifted = base + shift
-    # reference grid with bit-identical increments: what "the same simulation at another origin" means in floats
-    ref = np.concatenate([[0.0], np.cumsum(np.diff(shifted))])
+    base = np.asarray(sdrv.make_grid(cfg["grid"], cfg["nt"], cfg["tend"], rng), dtype=np.float64)
+    # both grids are made of dyadic rationals (multiples of 2^-k, all below 2^52 * 2^-k), so that times, the shift and
+    # every increment are exact in float64 and the two runs see bit-identical increments: only the solver's dependence
+    # on the time origin is measured, not the rounding of the shifted input
+    d = np.diff(base)
+    dmin = float(d[d > 0].min()) if np.any(d > 0) else 1.0
+    total = float(base[-1] - base[0]) + abs(cfg["shift_by"]) + 1.0
+    k = int(min(40, max(0, math.ceil(-math.log2(dmin)) + 4)))
+    k = int(min(k, math.floor(50 - math.log2(total))))
+    q = np.maximum(1, np.round(d * 2.0**k)) / 2.0**k
+    ref = np.concatenate([[0.0], np.cumsum(q)])
+    shift = round(cfg["shift_by"] * 2.0**k) / 2.0**k
+    shifted = ref + shift
+    if not (np.array_equal(np.diff(shifted), np.diff(ref)) and np.all(np.diff(ref) > 0)):
+        return [], {"cfg": cfg, "skipped": "grid not exactly representable"}, None
     out = []
     try:
         res = []
@@ -75,11 +86,14 @@ def shift_pairs(ctx: core.Ctx, n: int, nx_max: int) -> list[dict]:
         c = dict(c)
         c["shift_by"] = float(SHIFTS[i % len(SHIFTS)]) if rng.random() < 0.7 else float(10 ** rng.uniform(-3, 7))
         tasks.append((c, i + 1))
-    events, raws = [], {}
+    events, raws, skipped = [], {}, 0
     with ProcessPoolExecutor(max_workers=16) as ex:
         for (c, tid), (ev, raw, err) in zip(tasks, ex.map(_pair, tasks)):
             if err:
                 ctx.violation("C17.RunFailed", f"shifted pair raised on {c}: {err[:300]}", replay={"stage": "pair", "cfg": c})
+                continue
+            if not ev:
+                skipped += 1
                 continue
             events += ev
             raws[tid] = raw
@@ -88,6 +102,7 @@ def shift_pairs(ctx: core.Ctx, n: int, nx_max: int) -> list[dict]:
         for cl in v["clauses"]:
             if cl.startswith("C17."):
                 ctx.violation(cl, f"pair {raws[v['tid']]} violates {cl}", replay={"stage": "pair", "cfg": raws[v["tid"]]["cfg"]})
+    ctx.extra["pairs_skipped_not_representable"] = skipped
     return list(raws.values())
 
 
@@ -107,8 +122,8 @@ def run(ctx: core.Ctx) -> None:
                 "vs the shifted grid) for random configurations and shifts 1e-3..1e7, judged by SchemeTrace.tla (Shift, Interp events); "
                 "design level: C17_ShiftInvariant on every case of Scheme.tla")
     ctx.assumptions += [
-        "the unshifted reference uses the grid cumsum(diff(time + shift)), whose increments are bit-identical to the shifted run's, so "
-        "only the solver's dependence on the time origin is measured, not the rounding of the shifted input itself",
+        "both grids of a pair consist of dyadic rationals (times, shift and increments exact in float64), so the two runs see bit-identical "
+        "increments and only the solver's dependence on the time origin is measured, not the rounding of the shifted input itself",
         "'exactly the result of the scalar setting' is bitwise equality of stored time, field and returned recovery",
         "interpolator clauses are evaluated on the real interp1d object at all simulated times and at 3 points on either side",
     ]
